@@ -747,7 +747,11 @@ func (p *parser) processCtl(nodes []node, root *node, ctl []byte, pos int) ([]no
 	if m := reInc.FindSubmatch(ct); m != nil {
 		root.typ = typeInclude
 		// Names are separated by runs of blanks: two blanks in a row must not add an empty name to the list.
-		root.tpl = bytes.Fields(m[1])
+		for _, name := range bytes.Split(m[1], space) {
+			if len(name) > 0 {
+				root.tpl = append(root.tpl, name)
+			}
+		}
 		nodes = addNode(nodes, *root)
 		offset = pos + len(ctl)
 		return nodes, offset, up, err
